@@ -48,6 +48,10 @@ def run(ctx):
     from . import common_quote as Q
     m_, binds_, params_, sets_ = Q.model(ctx)
     Q.rule_decode_set(ctx, "R12", m_, params_, sets_)
+    # helper and url function are compared call by call: neither may answer from an earlier call made with other options
+    from . import common_state as ST
+    ST.rule_memo_keys(ctx, "R13")
+    ST.rule_cache_keys(ctx, "R14")
 
 
 AGREE_HOSTS = ["www.a.com", "WWW.A.COM", "a.com.", "www.a.com.", "m.a.co.uk.", "amp-www.a.com", "www.amp-x.com", "fr.a.com", "fr-FR.a.co.uk", "xn--caf-dma.fr", "caf\u00e9.fr", "b.a.co.uk", "a.com..", "mobile.a.com:8080", "127.0.0.1", "localhost"]
@@ -159,6 +163,16 @@ def host_helpers(ctx, rule, n):
 def _url_helper(ctx, rule, name, ref, rets, site, final_call, n):
     """shared checks for get_normalized_hostname / get_fingerprinted_hostname"""
     finals = [r for r in rets if r.kind == "return" and r.term[0] == "call" and r.term[1] == final_call]
+    if not finals:
+        # the call sits inside the returned value (behind a helper, a conditional, a stored result): every occurrence is read
+        seen_calls = []
+        for r in rets:
+            if r.kind != "return":
+                continue
+            for x in P.subterms(P.strip_inl(r.term)):
+                if x[0] == "call" and x[1] == final_call and x not in seen_calls:
+                    seen_calls.append(x)
+        finals = [P.Ret(x, (), ref.node, "return") for x in seen_calls]
     ctx.require_instances(rule, len(finals), 1, "returns of %s through %s" % (name, final_call.rpartition(".")[2]))
     for r in finals:
         arg = r.term[2][0]
